@@ -35,7 +35,7 @@ import vlib
 import preplib as P
 
 # ---- the proof obligations (coq/props/C15.v); everything below works independently of this list
-THEOREMS = ["C15_selects", "C15_selects_nontrivia", "C15_selects_text", "C15_disabled_invisible",
+THEOREMS = ["C15_selects", "C15_selects_nontrivia", "C15_selects_text", "C15_selects_lexed", "C15_disabled_invisible",
             "C15_disabled_covered", "C15_unterminated", "C15_missing_name"]
 TRUSTED = [
     "Coq 8.16.1 kernel (coqc); Print Assumptions of every theorem is checked against the allow-list (none)",
